@@ -7,6 +7,7 @@ win condition against the listed items, the join reply, and the initial view aga
 Model/Load.v init_view (inside Coq) and against the property statement (monitor)."""
 import copy
 import json
+import re
 import os
 import random
 import sys
@@ -16,7 +17,7 @@ import yaml
 import check as CK
 
 TRANSLATORS = ["confdefaults"]
-COQ_FILES = ["Props/C19.v", "Obl/C19_defaults.v", "Obl/C19_model.v"]
+COQ_FILES = ["Props/C19.v", "Props/C19_config.v", "Obl/C19_defaults.v", "Obl/C19_model.v"]
 
 SCEN_IPS = ["192.168.1.2", "192.168.1.3", "192.168.1.4", "192.168.2.2", "192.168.2.3", "213.47.23.195", "192.168.1.1", "192.168.2.1"]
 SCEN_NETS = ["192.168.1.0/24", "192.168.2.0/24", "213.47.23.192/26"]
@@ -284,6 +285,7 @@ def correspondence(ctx):
     probe_shipped(ctx, nsgenv, CR)
     probe_role_limits(ctx, nsgenv)
     probe_switches(ctx, nsgenv, CR)
+    probe_goal(ctx, nsgenv, CR)
     # ---- dynamic addresses: the configured start position is what the game uses for agents joining after re-labellings
     from props import dynprobe
     dynprobe.run(ctx, "C19")
@@ -309,6 +311,33 @@ def correspondence(ctx):
                 tree = m_metas[cs[i][1]][1]
                 ctx.broken.append(f"correspondence Model/Config.v read vs utils.ConfigParser getter: {cs[i][0].split(' cfg')[0][len('check_read gen_config_getters '):]} on {json.dumps(tree)[:300]}")
     m_stats["model_impl_disagreements"] = m_disagree
+    # ---- the section readers and the assembly of start position / win condition against Model/ConfigParts.v
+    from props import c19_parts
+    p_cases, p_trees, p_stats = c19_parts.run(ctx, 500 if ctx.tier == "thorough" else 150)
+    p_files = c19_parts.write_cases(casedir, p_cases, p_trees)
+    p_res = CK.run_case_files(ctx, [p for p, _ in p_files])
+    p_disagree, p_applies = 0, 0
+    for p, cs in p_files:
+        ok, out = p_res[p]
+        idx = CK.coq_eval_list(out) if ok else None
+        m_app = re.search(r"=\s*(\d+)\s*:\s*nat", out) if ok else None
+        if idx is None or m_app is None:
+            ctx.stage_errors.append((f"coqc {os.path.basename(p)}", out[-600:]))
+            continue
+        p_applies += int(m_app.group(1))
+        idx = [int(x.replace("%nat", "")) for x in idx]
+        if len(cs) not in idx:
+            ctx.stage_errors.append((f"canary {os.path.basename(p)}", "deliberately false case not reported"))
+        for i in idx:
+            if i < len(cs):
+                p_disagree += 1
+                k, role, fn, exp = cs[i]
+                ctx.broken.append(f"correspondence Model/ConfigParts.v {fn} vs utils.ConfigParser ({role}): implementation gave {exp[:200]} on {json.dumps(p_trees[k][1]['coordinator']['agents'].get(role))[:300]}")
+    p_stats["model_applies"] = p_applies
+    p_stats["model_impl_disagreements"] = p_disagree
+    if p_stats["parts_compared"] and p_applies < 0.6 * p_stats["parts_compared"]:
+        ctx.stage_errors.append(("section reader correspondence", f"the model applies to only {p_applies} of {p_stats['parts_compared']} generated parts"))
+    ctx.coverage["section_reader_model"] = p_stats
     # ---- run the model
     shard = 20
     paths, shards = [], []
@@ -491,6 +520,91 @@ def probe_switches(ctx, nsgenv, CR):
     ctx.coverage["switch_probe"] = stats
 
 
+def probe_goal(ctx, nsgenv, CR):
+    """The win condition the GAME uses is the configured one: an attacker plays the same exfiltration script under different
+    goals; after every answer the end flag must equal 'every item the configuration lists for the goal is in the returned view'
+    (reference subset check, independent of coordinator.goal_check) - goals listing two data for one host (delivered in both
+    orders), a goal listing less than the agent will know about that host, goals over services and hosts."""
+    from nsgenv import msg, ip
+    goals = [
+        ("two data, one host", {"known_data": {"213.47.23.195": [["User1", "DataFromServer1"], ["User2", "Data2FromServer1"]]}}),
+        ("one datum, more delivered first", {"known_data": {"213.47.23.195": [["User1", "DataFromServer1"]]}}),
+        ("one datum on a host where more is known", {"known_data": {"192.168.1.2": [["User1", "DataFromServer1"]]}}),
+        ("a service of a host where more are known", {"known_services": {"192.168.1.2": [["microsoft-ds", "passive", "10.0.19041", False]]}}),
+        ("two hosts and a network", {"known_hosts": ["192.168.1.2", "192.168.1.3"], "known_networks": ["192.168.1.0/24"]}),
+    ]
+    stats = {"goals": 0, "answers_checked": 0, "episodes_won": 0}
+    for name, goal in goals:
+        for order in (0, 1):
+            cfg = nsgenv.base_config("scenario1_small", required_players=1)
+            A = cfg["coordinator"]["agents"]["Attacker"]
+            A["max_steps"] = 40
+            g0 = copy.deepcopy(nsgenv.EMPTY_PART)
+            g0.update(copy.deepcopy(goal))
+            A["goal"] = dict(g0, description="goal", is_any_part_of_goal_random=False)
+            replay = {"kind": "goal_probe", "goal": goal, "order": order}
+            try:
+                S = CR.Session(cfg)
+            except Exception as e:
+                ctx.violations.append({"key": f"coordinator does not start (goal: {name})", "what": f"{type(e).__name__}: {e}", "replay": replay})
+                continue
+            stats["goals"] += 1
+            try:
+                S.d.on_segment = None
+                d, g = S.d, S.g
+                a = ("10.3.6.1", 601)
+                d.connect(a); d.settle()
+                d.send(a, nsgenv.join("att", "Attacker")); d.settle()
+                d.new_output(a)
+                ended = [False]
+
+                def play(text, what):
+                    if ended[0]:
+                        return
+                    d.send(a, text); d.settle()
+                    o = [json.loads(r[:-3].decode()) for r in d.new_output(a)]
+                    if len(o) != 1 or "observation" not in o[0]:
+                        ctx.violations.append({"key": f"goal probe: action not answered ({name})", "what": f"{what}: {len(o)} answers {d.task_errors[:1]}", "replay": replay})
+                        ended[0] = True
+                        return
+                    obs = o[0]["observation"]
+                    stats["answers_checked"] += 1
+                    want = CR.ref_goal(A["goal"], obs["state"])
+                    if bool(obs["end"]) != want:
+                        ctx.violations.append({"key": f"win condition is not the configured one ({name})",
+                                               "what": f"goal {goal}: after {what} the configured goal is {'reached' if want else 'NOT reached'} in the returned view, but the game says end={obs['end']} {obs['info']}",
+                                               "replay": replay})
+                    if obs["end"]:
+                        ended[0] = True
+                        if "Success" in str(obs["info"].get("end_reason")):
+                            stats["episodes_won"] += 1
+                play(msg("ScanNetwork", source_host=ip("192.168.2.2"), target_network={"ip": "192.168.1.0", "mask": 24}), "ScanNetwork")
+                play(msg("FindServices", source_host=ip("192.168.2.2"), target_host=ip("192.168.1.2")), "FindServices")
+                st = g._agent_states.get(a)
+                from AIDojoCoordinator.game_components import IP
+                svcs = sorted(st.known_services.get(IP("192.168.1.2"), []), key=lambda x: x.name) if st else []
+                for sv in svcs:
+                    if IP("192.168.1.2") in g._agent_states[a].controlled_hosts:
+                        break
+                    play(msg("ExploitService", source_host=ip("192.168.2.2"), target_host=ip("192.168.1.2"),
+                             target_service={"name": sv.name, "type": sv.type, "version": sv.version, "is_local": sv.is_local}), f"ExploitService {sv.name}")
+                play(msg("FindData", source_host=ip("192.168.1.2"), target_host=ip("192.168.1.2")), "FindData")
+                items = [("User1", "Data3FromServer1"), ("User2", "Data2FromServer1"), ("User1", "DataFromServer1")]
+                for owner, did in (items if order == 0 else items[::-1]):
+                    play(msg("ExfiltrateData", source_host=ip("192.168.1.2"), target_host=ip("213.47.23.195"),
+                             data={"owner": owner, "id": did, "size": 0, "type": ""}), f"ExfiltrateData {did}")
+                if d.task_errors:
+                    ctx.violations.append({"key": f"task died in the goal probe ({name})", "what": str(d.task_errors[:1]), "replay": replay})
+            except Exception as e:
+                import traceback
+                ctx.stage_errors.append((f"goal probe {name}", f"{type(e).__name__}: {e}\n{traceback.format_exc()[-500:]}"))
+            finally:
+                S.close()
+    if stats["episodes_won"] < 4:
+        ctx.stage_errors.append(("goal probe", f"only {stats['episodes_won']} of the probe episodes reached their goal: the probe script no longer exercises the win condition"))
+    ctx.coverage["goal_probe"] = stats
+
+
 def probe_shipped(ctx, nsgenv, CR):
     """The shipped configuration: Defender goal known_blocks {213.47.23.195: 'all_attackers'}."""
     path = os.path.join(CK.REPO, "AIDojoCoordinator", "netsecenv_conf.yaml")
@@ -532,6 +646,15 @@ def replay(ctx, payload):
         nsgenv, WL, WR, CR = _imports()
         c2 = CK.Ctx("C19", "quick", 1)
         probe_role_limits(c2, nsgenv)
+        for v in c2.violations:
+            print(v["what"])
+        if c2.violations:
+            print("VIOLATION property=C19 replay=(this file)")
+        return 1 if c2.violations else 0
+    if payload.get("kind") == "goal_probe":
+        nsgenv, WL, WR, CR = _imports()
+        c2 = CK.Ctx("C19", "quick", 1)
+        probe_goal(c2, nsgenv, CR)
         for v in c2.violations:
             print(v["what"])
         if c2.violations:
